@@ -33,8 +33,20 @@ func checkC04(v *tunView, m *connModel) {
 	var acceptOrder []int
 	var expected []uint8 = make([]uint8, len(m.epochs))
 	ackBy := func(i int) uint64 {
-		if i+2 < len(v.rx) {
-			return v.rx[i+2].At.Seq
+		// (only frames that the socket layer decodes are handed to the loop and wait for it; something
+		// it drops - an unknown service, a body that does not add up - does not hold the reader back)
+		n := 0
+		for j := i + 1; j < len(v.rx); j++ {
+			f := v.rx[j].F
+			if !f.OK {
+				continue
+			}
+			switch f.Svc {
+			case svcConnRes, svcConnStateRes, svcDiscReq, svcDiscRes, svcTunnelReq, svcTunnelRes:
+				if n++; n == 2 {
+					return v.rx[j].At.Seq
+				}
+			}
 		}
 		return ^uint64(0)
 	}
@@ -154,7 +166,7 @@ func checkC04(v *tunView, m *connModel) {
 		}
 	}
 	// no accepted telegram is lost while the tunnel is open and the application reads
-	open := m.term == nil && (m.closeInv == nil || m.closeInv.Seq > r.h.Settled.Seq)
+	open := m.term == nil && !m.between && (m.closeInv == nil || m.closeInv.Seq > r.h.Settled.Seq)
 	if open && c.Reader != "absent" {
 		for _, id := range acceptOrder {
 			if seen[id] < accepted[id] {
@@ -205,6 +217,9 @@ func checkC05(v *tunView, m *connModel) {
 		bus[b.ID]++
 		if bus[b.ID] == 1 {
 			busPos[b.ID] = i
+		}
+		if b.ID >= 0 && b.Raw != nil && string(b.Raw) != string(idReqCEMI(b.ID)) {
+			e.Violate("C05", "bus-content-differs", "the telegram the gateway put on the bus for id=%d is %x; the telegram handed to Send is %x", b.ID, b.Raw, idReqCEMI(b.ID))
 		}
 		if bus[b.ID] == 2 {
 			e.Violate("C05", "bus-duplicate", "telegram id=%d was put on the bus twice (seq %d on channel %d at %v)", b.ID, b.Seq, b.Channel, b.At.T)
@@ -303,7 +318,7 @@ func checkC05(v *tunView, m *connModel) {
 	if c.Reader == "absent" || m.giveUp {
 		return // (without a connection model there is no telling whether the tunnel stayed open)
 	}
-	open := m.term == nil && (m.closeInv == nil || m.closeInv.Seq > r.h.Settled.Seq)
+	open := m.term == nil && !m.between && (m.closeInv == nil || m.closeInv.Seq > r.h.Settled.Seq)
 	delivered := map[int]int{}
 	pos := map[int]int{}
 	for i, d := range r.h.Deliv {
@@ -407,7 +422,7 @@ func checkC09(v *tunView, m *connModel) {
 			if x.F.Channel != ep.Channel {
 				continue
 			}
-			if k > 0 && x.At.T < ep.Start.T+c.H-eps {
+			if k > 0 && x.At.T < ep.Start.T+c.H { // (no slack here: a ticker never fires early, and slack would only narrow the exemption)
 				// this epoch's own ticker has not fired yet: the request comes from a heartbeat
 				// goroutine of the previous epoch that got going late (it reads the channel when
 				// it builds the request) and whose exchange ends as soon as it looks at its closed
